@@ -149,6 +149,7 @@ def run(chk: harness.Check):
     # ---- D5 core separator precedence ---------------------------------------------------------
     d5_core_separator(chk, F)
     d6_inline_same_text(chk, F)
+    d7_range_partition(chk, F)
 
     # ---- D3 propagation -----------------------------------------------------------------------
     allow_const = {a["function"]: a for a in tab.get("constant_extensions", [])}
@@ -238,6 +239,29 @@ def run(chk: harness.Check):
 def _short(ck):
     from inventory import short
     return short(ck)
+
+
+def d7_range_partition(chk, F):
+    """Under RANGE_VALUES a value is a range only if EVERYTHING before the first `-` and EVERYTHING after it is a number:
+    the two slices handed to numeric_value in range_value partition the token slice at one position (split_at / split_first /
+    range indexing), they are not the first two pieces of a `split` iterator (which would silently drop `-1` from `3-2-1`)."""
+    from flow import resolve, leaves
+    fs = [g for g in F.find("parser::quantity::range_value") if not g.is_closure()]
+    if len(fs) != 1:
+        chk.fail("anchor-missing", "range_value", "", "anchor-missing: parser::quantity::range_value not found")
+        return
+    f = fs[0]
+    calls = [(b, t) for b, t in f.calls() if (callee_key(t) or "").endswith("parser::quantity::numeric_value")]
+    chk.floor("C02.D7-range-partition", "numeric_value calls in range_value", len(calls), 2, f"{f.file}:{f.line}")
+    for n, (b, t) in enumerate(calls):
+        ls = leaves(resolve(f, t["args"][0]))
+        cs = {l[5:].rsplit("::", 1)[-1] for l in ls if l.startswith("call:")}
+        part = bool(cs & {"split_at", "split_first", "split_last", "index"})
+        piece = bool(cs & {"next", "nth", "next_back", "splitn", "split", "rsplit"})
+        chk.expect(part and not piece and "param:tokens" in ls, "C02.D7-range-partition", f"range_value|operand#{n}", f.where(b),
+                   f"a range operand is taken from {sorted(cs)}: the operands must be the two sides of ONE cut of the value's tokens, otherwise text such as "
+                   "`3-2-1` becomes a range when RANGE_VALUES is on and stays text when it is off",
+                   sample=f"{f.where(b)}: operand = one side of split_at(first `-`)")
 
 
 def d6_inline_same_text(chk, F):
